@@ -11,6 +11,7 @@ Property oracle (independent of the model): after every fault other files are by
 id is absent or holds the complete old or new object, a fresh store answers len/iter/contains/get,
 a failed add is not contained and has no source."""
 import errno
+import io
 import json
 import os
 import sys
@@ -51,6 +52,7 @@ class Harness:
         self.tmp_suffix = ".{}-{}.tmp".format(os.getpid(), __import__("threading").get_ident())
         self.report = {"pid": os.getpid()}
         self.active = True
+        self.short = case.get("short")      # the file system has room for this many more bytes (None: unlimited)
 
     def fname(self, path):
         path = os.fspath(path)
@@ -95,22 +97,76 @@ class Harness:
         return fk
 
 
+class FaultyRaw(io.RawIOBase):
+    """raw file whose device has room for `room` more bytes: write(2) stores what fits and returns the short
+    count; once nothing fits it fails with ENOSPC - the way a full disk / a size limit behaves.  Python's
+    buffered and text layers are stacked on it unchanged (see p_open), so whatever the SDK does with short counts
+    is exercised for real."""
+
+    def __init__(self, fd, room):
+        super().__init__()
+        self.fd, self.room = fd, room
+
+    def writable(self):
+        return True
+
+    def fileno(self):
+        return self.fd
+
+    def write(self, b):
+        b = bytes(b)
+        if not b:
+            return 0
+        if self.room <= 0:
+            raise OSError(errno.ENOSPC, "No space left on device (injected)")
+        n = min(len(b), self.room)
+        os.write(self.fd, b[:n])
+        self.room -= n
+        return n
+
+    def close(self):
+        if not self.closed:
+            try:
+                os.close(self.fd)
+            finally:
+                super().close()
+
+
+def layered_open(path, mode, buffering, room, encoding=None, errors=None, newline=None):
+    """what open(path, mode, buffering) builds for a write mode, on top of a FaultyRaw"""
+    flags = os.O_WRONLY | os.O_CREAT | (os.O_APPEND if "a" in mode else os.O_TRUNC)
+    if "x" in mode:
+        flags |= os.O_EXCL
+    raw = FaultyRaw(os.open(path, flags, 0o666), room)
+    binary = "b" in mode
+    if buffering == 0:
+        if not binary:
+            raise ValueError("can't have unbuffered text I/O")
+        return raw
+    buf = io.BufferedWriter(raw, buffering if buffering > 1 else io.DEFAULT_BUFFER_SIZE)
+    if binary:
+        return buf
+    return io.TextIOWrapper(buf, encoding=encoding, errors=errors, newline=newline, line_buffering=(buffering == 1))
+
+
 class FileProxy:
-    def __init__(self, H, real, name):
-        self.H, self.real, self.name = H, real, name
+    """the object the SDK gets from open(): logs write/close as effects and applies the fault that hits them.
+    passthrough=False: data is held back and reaches the real file at close (or as the prefix a fault names);
+    passthrough=True (short-write cases): every call goes straight to the real layered file on a FaultyRaw."""
+
+    def __init__(self, H, real, name, passthrough=False):
+        self.H, self.real, self.name, self.passthrough = H, real, name, passthrough
         self.buf = []
         self.dead = False
         H.open_files.append(self)
 
     def flush_prefix(self, fl, extra=None):
-        if extra is not None:
-            data = "".join(self.buf) + extra[1]
-            written = True
-        else:
-            data = "".join(self.buf)
-            written = bool(self.buf)
-        if not written:
+        if self.passthrough:
             return
+        parts = list(self.buf) + ([extra[1]] if extra is not None else [])
+        if not parts:
+            return
+        data = parts[0][:0].join(parts)
         self.real.write(data if fl is None else data[:fl])
 
     def write(self, data):
@@ -119,6 +175,13 @@ class FileProxy:
             self.flush_prefix(fk[2], (self, data))
             self._finish()
             raise EXC[fk[1]]()
+        if self.passthrough:
+            try:
+                return self.real.write(data)
+            except OSError:
+                self.H.report["raised_at"] = "write"
+                self._finish()
+                raise
         self.buf.append(data)
         return len(data)
 
@@ -126,7 +189,10 @@ class FileProxy:
         self.dead = True
         if self in self.H.open_files:
             self.H.open_files.remove(self)
-        self.real.close()
+        try:
+            self.real.close()
+        except OSError:
+            pass
 
     def close(self):
         if self.dead:
@@ -136,6 +202,16 @@ class FileProxy:
             self.flush_prefix(fk[2])
             self._finish()
             raise EXC[fk[1]]()
+        if self.passthrough:
+            self.dead = True
+            if self in self.H.open_files:
+                self.H.open_files.remove(self)
+            try:
+                self.real.close()
+            except OSError:
+                self.H.report["raised_at"] = "close"
+                raise
+            return
         self.flush_prefix(None)
         self._finish()
 
@@ -164,6 +240,10 @@ def install(H):
         fk = H.effect([3] + nm)
         if fk[0] == "r":
             raise EXC[fk[1]]()
+        if H.short is not None:
+            buffering = a[0] if a else k.get("buffering", -1)
+            return FileProxy(H, layered_open(file, mode, buffering, H.short, k.get("encoding"), k.get("errors"),
+                                             k.get("newline")), nm, passthrough=True)
         return FileProxy(H, real_open(file, mode, *a, **k), nm)
 
     def p_exists(path):
@@ -239,19 +319,38 @@ def install(H):
 
 # ---------------------------------------------------------------- answers of a store instance
 
+CALL_LIMIT = 2.5     # seconds one SDK call may take before it counts as "does not return"
+
+
 def answers(store, idlist, table):
-    """[per key: contains + get answer], len, iter (sorted by key) - integers only"""
+    """[per key: contains + get answer], len, iter (sorted by key) - integers only.  Every call has its own time
+    limit; after the first call that does not return the remaining ones are not tried ([-7])."""
     def token(obj):
         c = L.canon(obj)
         return table.index(c) if c in table else 98
+    hang = []
+
+    def timed(what, f):
+        if hang:
+            raise L.Hang()
+        try:
+            with L.deadline(CALL_LIMIT):
+                return f()
+        except L.Hang:
+            hang.append(what)
+            raise
     per = []
     for k, idn in enumerate(idlist):
         try:
-            row = [1 if idn in store else 0]
+            row = [1 if timed("contains", lambda: idn in store) else 0]
+        except L.Hang:
+            row = [-7]
         except Exception as e:
             row = [-1, L.exc_code(e)]
         try:
-            row += [1, token(store.get_identifiable(idn))]
+            row += [1, token(timed("get_identifiable", lambda: store.get_identifiable(idn)))]
+        except L.Hang:
+            row += [-7]
         except KeyError:
             row += [2]
         except json.JSONDecodeError:
@@ -260,16 +359,20 @@ def answers(store, idlist, table):
             row += [9, L.exc_code(e)]
         per.append(row)
     try:
-        ln = [len(store)]
+        ln = [timed("len", lambda: len(store))]
+    except L.Hang:
+        ln = [-7]
     except Exception as e:
         ln = [-1, L.exc_code(e)]
     try:
-        objs = list(store)
+        objs = timed("iteration", lambda: list(store))
         pairs = sorted((idlist.index(o.id) if o.id in idlist else 99, token(o)) for o in objs)
         it = [1] + [x for p in pairs for x in p]
+    except L.Hang:
+        it = [-7]
     except Exception as e:
         it = [0]
-    return {"per": per, "len": ln, "iter": it}
+    return {"per": per, "len": ln, "iter": it, "hang": hang[:1]}
 
 
 # ---------------------------------------------------------------- one case on the SDK
@@ -356,11 +459,14 @@ def run_sdk(case):
                     return real_gs(x)
                 cstore.generate_source = gs
                 try:
-                    if case["op"] == "add":
-                        cstore.add(obj)
-                    else:
-                        obj.commit()
+                    with L.deadline(3 * CALL_LIMIT):
+                        if case["op"] == "add":
+                            cstore.add(obj)
+                        else:
+                            obj.commit()
                     H.report["outcome"] = [0]
+                except L.Hang:
+                    H.report["outcome"] = [7]
                 except BaseException as e:   # noqa
                     H.report["outcome"] = [1, L.exc_code(e)]
                     H.report["exc"] = "{}: {}".format(type(e).__name__, e)[:200]
@@ -381,13 +487,25 @@ def run_sdk(case):
             os._exit(0)
         os.close(wfd)
         chunks = []
+        import select
+        import signal
+        import time
+        t_end = time.time() + 20 * CALL_LIMIT
+        killed = False
         while True:
+            left = t_end - time.time()
+            if left <= 0 or not select.select([rfd], [], [], left)[0]:
+                os.kill(pid, signal.SIGKILL)      # the child did not finish: never leave it behind
+                killed = True
+                break
             b = os.read(rfd, 65536)
             if not b:
                 break
             chunks.append(b)
         os.close(rfd)
         _, status = os.waitpid(pid, 0)
+        if killed:
+            chunks = [json.dumps({"pid": pid, "outcome": [7], "trace": [], "killed": True}).encode()]
         rep = json.loads(b"".join(chunks).decode() or "{}")
         if "child_error" in rep or "outcome" not in rep:
             raise RuntimeError("child failed: {} status={}".format(rep, status))
@@ -422,20 +540,24 @@ def run_sdk(case):
             disk_row += real.get(tuple(nm), [0]) + [-1]
         fresh = answers(local_file.LocalFileObjectStore(d), idlist, table)
         crashed = rep["outcome"] == [2]
+        hung = rep["outcome"] == [7]
         obs = [rep["outcome"],
                [x for e in rep["trace"] for x in e + [-1]],
-               [2, 2] if crashed else rep["marks"],
+               [2, 2] if crashed else rep.get("marks", [7, 7]),
                disk_row,
                [x for r in fresh["per"] for x in r + [-1]],
                fresh["len"],
                fresh["iter"]]
         # ---- property oracle (independent of the model)
         fail = None
+        bad = case["kind"] in L.BAD_KINDS
 
         def flag(what, msg):
             nonlocal fail
             if fail is None:
                 kindf = "none"
+                if case.get("short") is not None:
+                    kindf = "device-full"
                 for i, fk in enumerate(case["F"]):
                     if fk[0] != "n":
                         kindf = {"r": "exception-injected", "c": "process-dies"}[fk[0]]
@@ -443,38 +565,80 @@ def run_sdk(case):
                 pk = "bad-payload" if bad else "good-payload"
                 fail = ("C15:{}:{}:{}:{}".format(case["op"], pk, kindf, what), msg)
         docname = L.doc_name(idlist[key])
-        for n, raw in before.items():
-            if n != docname and after.get(n) != raw:
-                flag("other-file-changed", "file {} changed or vanished".format(n))
-        for n in after:
-            if n not in before and n != docname and not n.endswith(".tmp"):
-                flag("unexpected-file", "unexpected file {} appeared".format(n))
-        if docname in after:
-            cls = classify(docname, after[docname])
-            is_old = docname in before and after[docname] == before[docname]
-            is_new = (not bad) and cls == [1, new_tok]
-            if not (is_old or is_new):
-                flag("document-corrupt", "document of the written id is neither the old nor the complete new version "
-                                         "({} bytes, classified {})".format(len(after[docname]), cls))
-        elif docname in before:
-            flag("document-lost", "document of the written id vanished")
-        ndocs = sum(1 for n in after if n in hash2key)
-        if fresh["len"] != [ndocs]:
-            flag("len", "len() of a fresh store = {} but {} documents".format(fresh["len"], ndocs))
-        if fresh["iter"][0] != 1 or len(fresh["iter"]) != 1 + 2 * ndocs:
-            flag("iter", "iterating a fresh store fails or yields a wrong number of objects: {}".format(fresh["iter"]))
-        for k, row in enumerate(fresh["per"]):
-            present = L.doc_name(idlist[k]) in after
-            if row[0] != (1 if present else 0):
-                flag("contains", "contains() of key {} = {}".format(k, row[0]))
-            if present and row[1] != 1:
-                flag("get", "get_identifiable of stored key {} fails: {}".format(k, row[1:]))
-            if not present and row[1:] != [2]:
-                flag("get-missing", "get_identifiable of absent key {} does not raise KeyError: {}".format(k, row[1:]))
-        if not crashed:
-            if rep["same"]["per"] != fresh["per"] or rep["same"]["len"] != fresh["len"] or rep["same"]["iter"] != fresh["iter"]:
+        is_new = False
+
+        def judge(after, fresh, how):
+            """the property's demands on a directory state and on what a store opened in the way `how` answers"""
+            nonlocal is_new
+            for n, raw in before.items():
+                if n != docname and n in hash2key and after.get(n) != raw:
+                    flag("other-document-changed", "{}: document {} changed or vanished".format(how, n))
+                if n != docname and n not in hash2key and not n.endswith(".tmp") and after.get(n) != raw:
+                    flag("other-file-changed", "{}: file {} changed or vanished".format(how, n))
+            for n in after:
+                if n not in before and n != docname and not n.endswith(".tmp"):
+                    flag("unexpected-file", "{}: unexpected file {} appeared".format(how, n))
+            if docname in after:
+                cls = classify(docname, after[docname])
+                is_old = docname in before and after[docname] == before[docname]
+                is_new = (not bad) and cls == [1, new_tok]
+                if not (is_old or is_new):
+                    flag("document-corrupt", "{}: document of the written id is neither the old nor the complete new "
+                                             "version ({} bytes, classified {})".format(how, len(after[docname]), cls))
+            elif docname in before:
+                flag("document-lost", "{}: document of the written id vanished".format(how))
+            if fresh["hang"]:
+                flag("fresh-store-hangs", "{}: {} did not return within {} s".format(how, fresh["hang"][0], CALL_LIMIT))
+                return
+            ndocs = sum(1 for n in after if n in hash2key)
+            if fresh["len"] != [ndocs]:
+                flag("len", "{}: len() = {} but {} documents".format(how, fresh["len"], ndocs))
+            if fresh["iter"][0] != 1 or len(fresh["iter"]) != 1 + 2 * ndocs:
+                flag("iter", "{}: iterating fails or yields a wrong number of objects: {}".format(how, fresh["iter"]))
+            for k, row in enumerate(fresh["per"]):
+                present = L.doc_name(idlist[k]) in after
+                if row[0] != (1 if present else 0):
+                    flag("contains", "{}: contains() of key {} = {}".format(how, k, row[0]))
+                if present and row[1] != 1:
+                    flag("get", "{}: get_identifiable of stored key {} fails: {}".format(how, k, row[1:]))
+                if not present and row[1:] != [2]:
+                    flag("get-missing", "{}: get_identifiable of absent key {} does not raise KeyError: {}".format(
+                        how, k, row[1:]))
+        judge(after, fresh, "store opened by the constructor")
+        # the directory re-opened through every documented entry point: the property must hold after each, and a
+        # store opened that way must answer like the one opened by the constructor alone
+        reopen_diff = None
+        for how, create in (("check_directory(create=False)", False), ("check_directory(create=True)", True)):
+            st = local_file.LocalFileObjectStore(d)
+            try:
+                with L.deadline(CALL_LIMIT):
+                    st.check_directory(create=create)
+            except L.Hang:
+                flag("reopen-hangs", "{} did not return".format(how))
+                continue
+            except Exception as e:
+                flag("reopen-raises", "{} raised {}: {}".format(how, type(e).__name__, e))
+                continue
+            after2 = snapshot(d)
+            fresh2 = answers(st, idlist, table)
+            judge(after2, fresh2, "store re-opened with " + how)
+            if reopen_diff is None and (after2 != after or any(fresh2[x] != fresh[x] for x in ("per", "len", "iter"))):
+                reopen_diff = {"entry_point": how,
+                               "directory_changed": sorted(n for n in set(after) | set(after2) if after.get(n) != after2.get(n)),
+                               "answers": fresh2, "constructor_answers": fresh}
+        if hung:
+            flag("write-does-not-return", "{}() did not return within {} s".format(case["op"], 3 * CALL_LIMIT))
+        elif not crashed:
+            same = rep["same"]
+            if same["hang"]:
+                flag("instance-hangs", "after the {} {}() the same store instance did not answer {} within {} s "
+                                       "(every later operation must still work)".format(
+                                           "failed" if rep["outcome"][0] == 1 else "completed", case["op"], same["hang"][0],
+                                           CALL_LIMIT))
+            elif same["per"] != fresh["per"] or same["len"] != fresh["len"] or same["iter"] != fresh["iter"]:
                 flag("same-instance", "the writing instance answers differently from a fresh one: {} vs {}".format(
-                    rep["same"], fresh))
+                    same, fresh))
+            judge(after, fresh, "store opened by the constructor")     # (sets is_new for the checks below)
             if case["op"] == "add":
                 if rep["outcome"][0] == 1:
                     if rep["source"] != "":
@@ -489,7 +653,17 @@ def run_sdk(case):
         if unknown and not all(u.endswith(".tmp") for u in unknown):
             flag("unexpected-file", "unknown files {}".format(unknown))
         pl = ("Bad {}%nat".format(L.BAD_KINDS[case["kind"]])) if bad else "Good {}%nat".format(new_tok)
-        return {"obs": obs, "d0": d0, "pl": pl, "names": names, "fail": fail, "rep": rep, "unknown": unknown}
+        # the fault list the model is run with: as given, or - device-full cases - the exception the SDK's own file
+        # layers produced, placed at the effect where it surfaced, with the bytes that had fitted
+        F_model = case["F"]
+        if case.get("short") is not None:
+            at = rep.get("raised_at")
+            if at is None:
+                F_model = []
+            else:
+                F_model = [["n"]] * EFFECTS[case["op"]].index(at) + [["r", 1, case["short"]]]
+        return {"obs": obs, "d0": d0, "pl": pl, "names": names, "fail": fail, "rep": rep, "unknown": unknown,
+                "F_model": F_model, "reopen_diff": reopen_diff}
     finally:
         L.rm_scratch(d)
 
@@ -518,7 +692,7 @@ def coq_case(case, res):
                          for nm, c in res["d0"])
     return ("(mkcase {} {}%nat ({}) {} {} {} {} {} {})".format(
         "KAdd" if case["op"] == "add" else "KCommit", case["key"], res["pl"],
-        common.coq_list(coq_fk(f) for f in case["F"]), coq_fk(case["fc"]), d0,
+        common.coq_list(coq_fk(f) for f in res.get("F_model", case["F"])), coq_fk(case["fc"]), d0,
         common.coq_list(coq_fname(n) for n in res["names"]),
         common.coq_list(str(k) + "%nat" for k in range(NKEYS)),
         common.coq_z(common.zhash_d(res["obs"], 2))))
@@ -586,6 +760,12 @@ def gen_random_case(rng):
     size = payload_size(case["kind"] if op == "add" else case["pre"][0], ids_of(case)[key], case["v_new"])
     pts = fault_points(op, size)
     case["F"], case["fc"] = rng.choice(pts)
+    if not bad and rng.random() < 0.12:
+        # the device has room for only part of the document: no exception is injected, the SDK's own file layers
+        # meet short writes / ENOSPC
+        case["F"] = []
+        case["fc"] = rng.choice([["n"], ["n"], ["r", 1, None], ["c", None]])
+        case["short"] = rng.choice([0, 1, size // 3, size // 2, max(1, size - 1)])
     return case
 
 
@@ -604,6 +784,14 @@ def core_cases():
         for badk in L.BAD_KINDS:
             for F, fc in [([], ["n"]), ([["c", None]], ["n"]), ([["n"], ["c", None]], ["n"])]:
                 res.append(dict(base, kind=badk, F=F, fc=fc))
+    for op in ("add", "commit"):
+        for kind in ("sm_props", "sm_big"):
+            base = {"op": op, "key": 2, "ids": 0, "others": [(0, "cd", 1)], "extra": [], "stale_tmp": None, "v_new": 6,
+                    "pre": None if op == "add" else (kind, 2), "kind": kind, "F": []}
+            size = payload_size(kind, ids_of(base)[2], 6)
+            for room in (0, 1, size // 2, size - 1):
+                for fc in (["n"], ["r", 1, None], ["r", 9, None], ["c", None]):
+                    res.append(dict(base, fc=fc, short=room))
     res.append({"op": "add", "key": 0, "ids": 0, "others": [], "extra": [], "stale_tmp": None, "v_new": 6,
                 "pre": ("sm_small", 1), "kind": "sm_props", "F": [], "fc": ["n"]})
     res.append({"op": "commit", "key": 0, "ids": 0, "others": [], "extra": [], "stale_tmp": 12, "v_new": 6,
@@ -659,11 +847,17 @@ def run(chk):
         if case["pre"] is not None:
             case["pre"] = tuple(case["pre"])
     import multiprocessing
-    with multiprocessing.get_context("fork").Pool(8) as pool:   # cases are independent; results keep their order
-        results = pool.map(run_sdk, cases, chunksize=8)
+    pool = multiprocessing.get_context("fork").Pool(8)   # cases are independent; results keep their order
+    try:
+        # every SDK call has its own time limit inside run_sdk; this overall limit is the last line of defence
+        results = pool.map_async(run_sdk, cases, chunksize=8).get(timeout=120 + len(cases) * 0.5)
+    finally:
+        pool.terminate()        # no worker is left behind whatever happened
+        pool.join()
+    shrunk = set()
     for case, res in zip(cases, results):
         hit = [i for i, fk in enumerate(case["F"]) if fk[0] != "n"]
-        chk.seen(case, nontrivial=bool(hit) or case["kind"] in L.BAD_KINDS)
+        chk.seen(case, nontrivial=bool(hit) or case["kind"] in L.BAD_KINDS or case.get("short") is not None)
         chk.count("op=" + case["op"])
         chk.count("payload=" + case["kind"])
         chk.count("neighbours={}".format(len(case["others"])))
@@ -673,9 +867,18 @@ def run(chk):
             chk.count("fault={}@{}".format({"r": "raise", "c": "crash"}[case["F"][hit[0]][0]], eff))
         else:
             chk.count("fault=none")
+        if case.get("short") is not None:
+            chk.count("fault=device-full@" + str(res["rep"].get("raised_at")))
         if case["fc"][0] != "n":
             chk.count("cleanup-fault=" + case["fc"][0])
-        if res["fail"]:
+        if res["reopen_diff"] and not any(b.get("kind") == "reopen-entry-point" for b in chk.broken):
+            chk.tie_broken("reopen-entry-point", {"case": case, "detail": res["reopen_diff"],
+                                                  "note": "a store re-opened through check_directory() changes the "
+                                                          "directory or answers differently from one opened by the "
+                                                          "constructor (the model's recover is the same for every way "
+                                                          "of opening)"})
+        if res["fail"] and res["fail"][0] not in shrunk:     # one shrunk replay per failure class is enough
+            shrunk.add(res["fail"][0])
             small = shrink(case, lambda c: run_sdk(c)["fail"] is not None)
             r2 = run_sdk(small)
             sig, msg = r2["fail"] or res["fail"]
@@ -721,7 +924,11 @@ def run(chk):
                        "cannot fail) for C15_add_reports"]
     return chk.finish(level="proof",
                       rule="core: every effect position of add and commit x {raise, die} x 5 flush amounts x 4 cleanup "
-                           "outcomes for one payload, rejected payloads, duplicate add, commit of a vanished document; "
+                           "outcomes for one payload, rejected payloads, duplicate add, commit of a vanished document, "
+                           "a device with room for 0/1/half/all-but-one bytes of the document (short raw writes, then "
+                           "ENOSPC, met by the SDK's own file layers); after every case the directory is re-opened by the "
+                           "constructor, check_directory(create=False) and check_directory(create=True), every SDK call "
+                           "under a time limit; "
                            "then seeded random cases over 8 payload kinds (3 rejected by the serialiser), 16 identifier "
                            "shapes, 0-3 neighbours, foreign/stale files; non-trivial = a fault is injected or the "
                            "payload is rejected; distinct by full case description")
